@@ -334,6 +334,7 @@ CHECKS["C09"] = dict(
                "head-of-line blocking is not hostile input and out of scope.",
     rule="rapid-generated inputs; non-trivial = client stream longer than 2 bytes / cluster payload that the entry point decodes without error; distinct = distinct input bytes.",
     legs=[dict(name="client", test="^TestClientPort$", quick=dict(n=1500, procs=3, timeout=600), thorough=dict(n=150000, procs=8, timeout=3000)),
+          dict(name="concurrent-clients", test="^TestConcurrentClients$", quick=dict(n=60, procs=2, timeout=600), thorough=dict(n=6000, procs=6, timeout=3000)),
           dict(name="cluster-benign", test="^TestClusterBenign$", quick=dict(n=1500, procs=2, timeout=600), thorough=dict(n=150000, procs=4, timeout=3000)),
           dict(name="cluster-hostile", test="^(TestProbes|TestClusterHostile)$", quick=dict(n=300, procs=3, timeout=600), thorough=dict(n=15000, procs=6, timeout=3000)),
           dict(name="fuzz-seeds", test="^(FuzzGossipState|FuzzFrame)$", kind="plain", quick=dict(n=1, procs=1, timeout=300), thorough=dict(n=1, procs=1, timeout=300)),
